@@ -115,8 +115,8 @@ def clique_taint(ctx, rule="C19.clique"):
         if qn == "grow":
             # candidates are recomputed for the grown clique inside the loop
             loops = [n for n in walk_no_nested(f.node) if isinstance(n, ast.While)]
-            ok = bool(loops) and any(isinstance(x, ast.Assign) and isinstance(x.value, ast.Call) and
-                                     derives(f.node, x.value).has_call("c_0") for x in ast.walk(loops[0]) if isinstance(x, ast.Assign))
+            ok = bool(loops) and any(any(isinstance(c, ast.Call) and dotted(c.func) == "c_0" for c in ast.walk(x.value))
+                                     for x in ast.walk(loops[0]) if isinstance(x, ast.Assign))
             ctx.ob(rule, f.site, ok, "" if ok else "grow does not recompute c_0 after adding a node: a node not adjacent to "
                    "the new member may be added next", role="recompute-candidates", line=f.node.lineno)
         else:
